@@ -11,7 +11,10 @@ EXPLANATION = (
     "`--unknown-crates` literal to the policy of the same name and splits `rename=crate@version` at `=` and `@` in that order; the "
     "macro puts the map key in `rename` and the text before `@` in the crate name; (D4) the macro's `Type: ?Trait + Trait` syntax "
     "starts from {FromStr, Display}, no modifier inserts, `?` removes; (W1) each front end performs exactly TypeSpace::new(&settings) "
-    "-> add_root_schema -> to_stream/ToTokens with no later mutation of the settings or the space; (W2) in the CLI the only file "
+    "-> add_root_schema -> to_stream/ToTokens with no later mutation of the settings or the space, and the document it adds is the "
+    "parse result of the file, never borrowed mutably or assigned to; no setter call is preceded by a conditional early exit of the "
+    "loop or function it sits in; (W3) every front end hands a derive path to the generator in its written spelling (`a::b::C`: "
+    "the user's string as given, or a syn path rendered without token spacing), and every macro site renders it the same way; (W2) in the CLI the only file "
     "write and the only print are dominated by the success of convert(), `-` means stdout and the default output is the input "
     "path with extension rs."
 )
@@ -127,6 +130,22 @@ def check_setter_sites(rep, label, c, h, cn, field_pat):
                 continue
             okc = False
             why = g[1]
+        if okc:
+            # an early exit (continue / break / return, `?` aside) in a statement that precedes the call in one of its enclosing blocks
+            chain = list(anc) + [n]
+            for i, a in enumerate(chain[:-1]):
+                if a.get("k") != "block":
+                    continue
+                sts = list(a.get("stmts", [])) + ([a["tail"]] if a.get("tail") is not None else [])
+                for st in sts:
+                    if st is chain[i + 1]:
+                        break
+                    for x, xa in walk(st):
+                        if x.get("k") in ("continue", "break") and any(y.get("k") == "loop" for y in xa):
+                            continue  # leaves a loop nested in the earlier statement, not the block the call is in
+                        if x.get("k") in ("continue", "break", "ret") and not any(y.get("k") == "closure" or (y.get("k") == "match" and y.get("src") == "try") for y in xa):
+                            okc = False
+                            why = "an early `%s` in `%s`" % ({"ret": "return"}.get(x["k"], x["k"]), cn.r(st)[:80])
         rep.ob("C15.D1", "applied-unconditionally:" + key, okc, "no condition other than the presence of the option" if okc else
                "%s is only called under `%s`: part of what the user configured is dropped by this front end" % (n["name"], why[:100]), n.get("sp"))
 
@@ -318,6 +337,29 @@ def run(facts, rep, tier):
             recvs = {src(strip_refs(n["recv"])) for n, _ in nodes(h["body"], "mcall") if n["name"].startswith("with_") and "TypeSpaceSettings" in n.get("fn", "")}
             ok = arg.get("k") == "path" and arg.get("res") == "local" and "TypeSpaceSettings" in c.ty(arg.get("ty")) and (recvs <= {arg["path"]})
             rep.ob("C15.W1", "new-takes-the-built-settings:%s" % label, ok, "TypeSpace::new takes the settings object every setter was applied to" if ok else "TypeSpace::new(%s) is not the settings object that was configured (%s)" % (src(new_calls[0]["args"][0]), sorted(recvs)))
+        # the document handed to the type space is the parsed file, as parsed
+        ars = [n for n, _ in walk(h["body"]) if n.get("k") == "mcall" and n["name"] == "add_root_schema"]
+        if ars:
+            from lib import binding_let, uses_of_let
+            cnr = Canon(c, h, 5)
+            doc = strip_refs(ars[0]["args"][0])
+            t = cnr.r(doc)
+            parsed = bool(re.match(r"(serde_json::)?(from_str|from_reader|from_slice)\(", t))
+            bl = binding_let(h, doc)
+            muts = []
+            if bl is not None:
+                uses = {id(u) for u in uses_of_let(h, bl)}
+                for n, anc in walk(h["body"]):
+                    if n.get("k") == "ref" and n.get("mut") and any(id(x) in uses for x, _ in walk(n["e"])):
+                        muts.append(n)
+                    if n.get("k") in ("assign", "assignop"):
+                        lhs = n.get("l") or n.get("lhs") or n.get("place") or {}
+                        if any(id(x) in uses for x, _ in walk(lhs)):
+                            muts.append(n)
+            ok = parsed and bl is not None and not muts
+            rep.ob("C15.W1", "document-handed-over-as-parsed:%s" % label, ok, "add_root_schema receives the parsed document, untouched" if ok else
+                   ("the document is %s before it is handed to the type space: this front end generates from something else than the file's content" %
+                    ("modified (`%s`)" % src(muts[0])[:60] if muts else "not the parse result (`%s`)" % t[:80])), (muts[0] if muts else ars[0]).get("sp"))
     # post-processing in the macro: only the include_str! anchor
     if dm:
         qs = [n for n, _ in walk(dm[0]["body"]) if n.get("k") == "macro" and n["name"] == "quote"]
@@ -331,6 +373,45 @@ def run(facts, rep, tier):
         ret = Canon(cli, conv[0], 4).r(block_last(conv[0]["body"]))
         ok = any(x.endswith("rustfmt_wrapper::rustfmt") or x.endswith("::rustfmt") for x in cs_) and any(x.endswith("TypeSpace::to_stream") for x in cs_) and ret.startswith("Ok(rustfmt(format!(")
         rep.ob("C15.W1", "cli-postprocessing", ok, "CLI output = rustfmt(lint header + to_stream())" if ok else "CLI output is `%s`" % ret[:120])
+
+    # ------------------------------------------------------------ W3 one spelling for derive paths
+    # the generator orders and de-duplicates derives as strings (C14.T1): a front end that hands over a path in another
+    # spelling than the written one (`a::b::C`) emits a derive twice when typify or another option names it too
+    sites = []
+    for label, c in (("macro", mc), ("cli", cli)):
+        for h in c.user_fns():
+            cnw = Canon(c, h, 5)
+            cnw.inline_lets = True  # see through a rendering helper written with intermediate lets
+            for n, anc in walk(h["body"]):
+                if n.get("k") == "mcall" and n["name"] == "with_derive" and ("TypeSpaceSettings" in n.get("fn", "") or "TypeSpacePatch" in n.get("fn", "")):
+                    t = cnw.r(n["args"][0])
+                    red = t
+                    for s_ in element_sources(t):
+                        red = red.replace("elem<%s>" % s_, "E").replace("Iterator::next(IntoIterator::into_iter(%s))~Some.0" % s_, "E")
+                    red = re.sub(r"^Iterator::next\(E\)~Some\.0", "E", red)
+                    sites.append((label, h["fn"].split("::")[-1], red, n))
+    if rep.floor("C15.W3", "derive hand-over sites in the front ends", len(sites), 3):
+        WRITTEN = r"""E\.to_token_stream\(\)\.to_string\(\)(\.replace\((' '|" "), ""\)|\.split_whitespace\(\)\.collect\(\)|\.chars\(\)\.filter\(\|\.\.\| !elem<[^>]*>\.is_(ascii_)?whitespace\(\)\)\.collect\(\))"""
+        per = {}
+        for label, fn, red, n in sites:
+            i = per.get((label, fn), 0)
+            per[(label, fn)] = i + 1
+            base = re.sub(r"(\.clone\(\)|\.to_string\(\)|\.to_owned\(\)|\.as_str\(\))+$", "", red)
+            if base == "E" and ("String" in mc.ty(n["args"][0].get("ty")) or "str" in mc.ty(n["args"][0].get("ty")) or label == "cli"):
+                cls = "verbatim"
+            elif re.fullmatch(WRITTEN, red) or re.fullmatch(r"E\.segments\.iter\(\)\.map\(.*\)\.collect\(\)\.join\(\"::\"\)", red):
+                cls = "written"
+            elif re.fullmatch(r"E\.to_token_stream\(\)(\.to_string\(\))?", red) or re.fullmatch(r"E\.into_token_stream\(\)(\.to_string\(\))?", red):
+                cls = "token-spaced"
+            else:
+                cls = "unreviewed"
+            rep.ob("C15.W3", "derive-spelling:%s:%s#%d" % (label, fn, i), cls in ("verbatim", "written"),
+                   {"verbatim": "the user's string is handed over as given", "written": "the path is rendered without token spacing (`a::b::C`)"}.get(cls) or
+                   ("the derive path is handed to the generator as `%s` (%s): the token stream renders `a :: b :: C`, which does not merge with "
+                    "`a::b::C` as typify and the builder interface spell it, so the derive is emitted twice or ordered differently" % (red[:100], cls)), n.get("sp"))
+        ms_ = sorted({re.sub(r"(\.to_string\(\))+$", "", red) for label, fn, red, n in sites if label == "macro"})
+        rep.ob("C15.W3", "derive-spelling-sites-agree:macro", len(ms_) == 1, "every macro site renders a derive path the same way" if len(ms_) == 1 else
+               "the macro renders derive paths in %d different ways (%s): a derive named in `derives` and in a `patch` is not merged" % (len(ms_), " | ".join(x[-60:] for x in ms_)))
 
     # ------------------------------------------------------------ W2 nothing written on failure
     mains = [h for h in clibin.user_fns() if h["fn"].endswith("::main")]
